@@ -1910,6 +1910,15 @@ We don't check if chunk extensions are well-formed beyond validating that they
 don't contain characters outside this range.
 """
 
+_chunkExtQuotedString = re.compile(
+    rb'"(?:[\t !#-\[\]-~\x80-\xff]|\\[\t -~\x80-\xff])*"'
+)
+"""
+Matches a C{quoted-string} (RFC 9110 section 5.6.4) in a chunk extension::
+
+     quoted-pair    = "\\" ( HTAB / SP / VCHAR / obs-text )
+"""
+
 
 class _ChunkedTransferDecoder:
     """
@@ -2022,6 +2031,10 @@ class _ChunkedTransferDecoder:
             raise _MalformedChunkedDataError("Chunk-size must be an integer.")
 
         ext = self._buffer[endOfLengthIndex + 1 : eolIndex]
+        if b"\\" in ext:
+            # A backslash is only valid as the start of a quoted-pair inside
+            # a quoted-string (RFC 9110 section 5.6.4); disregard those.
+            ext = _chunkExtQuotedString.sub(b'""', ext)
         if ext and ext.translate(None, _chunkExtChars) != b"":
             raise _MalformedChunkedDataError(
                 f"Invalid characters in chunk extensions: {ext!r}."
